@@ -657,6 +657,32 @@ func runCase(kind string, c caseDesc, raw []byte) {
 		}
 
 		runEnclosing(kind, e)
+	case "jwtmulti":
+		d, err := parseJ(c.Doc)
+		if err != nil {
+			panic(err)
+		}
+
+		runJWTMultiSubject(kind, d)
+	case "jwtvp":
+		d, err := parseJ(c.Doc)
+		if err != nil {
+			panic(err)
+		}
+
+		var aud []string
+		if c.Note != "" {
+			aud = strings.Fields(c.Note)
+		}
+
+		runJWTVP(kind, d, aud, c.Minimize)
+	case "didres":
+		d, err := parseJ(c.Doc)
+		if err != nil {
+			panic(err)
+		}
+
+		runResolution(kind, d, c.Note)
 	case "jwk":
 		d, err := parseJ(c.Doc)
 		if err != nil {
@@ -766,6 +792,34 @@ func main() {
 		runEnclosing("random-vp-enclosing", randEnclosing(rng.Fork(uint64(700000+i))))
 	}
 
+	for i := 0; i < 120*scale; i++ {
+		res, _ := randResolution(rng.Fork(uint64(1000000 + i)))
+		runResolution("random-did-resolution", res, "")
+	}
+
+	for i := 0; i < 40*scale; i++ {
+		r := rng.Fork(uint64(1100000 + i))
+		d := randJWTVC(r)
+		d.set("credentialSubject", arr(obj(kv("id", str("did:ex:s1")), kv("a", num(1))), obj(kv("id", str("did:ex:s2")))))
+		runJWTMultiSubject("jwt-several-subjects", d)
+	}
+
+	for i := 0; i < 100*scale; i++ {
+		r := rng.Fork(uint64(1200000 + i))
+
+		var d *J
+		for {
+			var f feat
+			d, f = randVP(r.Fork(uint64(r.Intn(1 << 30))))
+			if (f == feat{}) {
+				break
+			}
+		}
+
+		runJWTVP("jwt-vp", d, [][]string{nil, {"did:ex:verifier"}, {"did:ex:v1", "https://ex.com/v2"}}[r.Intn(3)], r.Bool())
+	}
+
+	runDIDKeyUnsupported("didkey-unsupported")
 	genJWKs(rng.Fork(800000), scale)
 	genConstructed(rng.Fork(900000))
 	genFP(rng.Fork(500000), scale)
